@@ -109,6 +109,10 @@ inductive Op
   | fdatasync
   | fsync
   | falloc (off len : Nat)
+  /-- marker: the I/O call issued just before failed (`Model/DiskFault`); no effect on the disk
+  beyond what was already issued (a failing `write_all` is preceded by the `write` of the bytes
+  that did get written) -/
+  | failed
   deriving Repr, DecidableEq
 
 def Disk.exec (d : Disk) : Op → Disk
@@ -116,6 +120,7 @@ def Disk.exec (d : Disk) : Op → Disk
   | .fdatasync => d.sync
   | .fsync => d.sync
   | .falloc _ _ => d
+  | .failed => d
 
 def Disk.execAll (d : Disk) : List Op → Disk
   | [] => d
